@@ -15,6 +15,16 @@ def regen(ctx):
         return fails
     checklib.write_gen(ctx, out, open(tmp).read())
     ctx.notes.append("regenerated Hive/Gen/C19_SafeMath.lean from " + src)
+    # translator self-check: harness/c19/trcorpus.go (sample functions in the parts of the subset that safe_math.go does not use)
+    # is translated by the same tool; the differential run executes both sides (`corpus` request lines)
+    csrc = os.path.join(checklib.HARNESS, "c19", "trcorpus.go")
+    cout = os.path.join(checklib.LEAN, "Hive", "Gen", "C19_TrCorpus.lean")
+    ctmp = os.path.join(ctx.scratch, "C19_TrCorpus.lean")
+    rc, log = checklib.sh(["go", "run", "./tools/translate-safemath", "-corpus", csrc, ctmp], cwd=checklib.HARNESS, timeout=600)
+    if rc != 0 or not os.path.exists(ctmp):
+        fails.append({"kind": "translator", "detail": "translate-safemath -corpus failed on harness/c19/trcorpus.go:\n" + checklib.tail(log, 20)})
+        return fails
+    checklib.write_gen(ctx, cout, open(ctmp).read())
     return fails
 
 
@@ -131,7 +141,7 @@ SPEC = {
                  "C19_error_identity", "C19_sentinels_distinct", "C19_ierrors_wrappers", "C19_error_sites_cover"] +
                 [f"C19_{f}_{c}" for f in ("add", "sub", "mul", "div", "shl", "mulU64", "mulI64") for c in ("never_wraps", "never_spurious", "error_iff")] +
                 ["C19_mulDiv64_never_spurious", "C19_bitLen_spec", "C19_trailingZeros_spec", "C19_add64_sub64_spec"],
-    "trusted_base": ["translator harness/tools/translate-safemath (go/ast -> Lean, ~1750 lines incl. the error-expression renderer; in-file helpers, constants, switch, for loops, math/bits), cross-checked on every run by executing the generated definitions against the real functions (2.7 M lines, exhaustive at 8 bit) and by the shared boundary search",
+    "trusted_base": ["translator harness/tools/translate-safemath (go/ast -> Lean, ~1750 lines incl. the error-expression renderer; in-file helpers, constants, switch, for loops, math/bits), cross-checked on every run by executing the generated definitions against the real functions (2.8 M lines, exhaustive at 8 bit), by the shared boundary search and by the translator corpus harness/c19/trcorpus.go (functions in the parts of the subset safe_math.go does not use - helpers, loops, switch, tuples, math/bits - translated by the same tool and executed on both sides, 114 k lines)",
                      "Go integer semantics Hive/Base/GoInt.lean + Hive/Model/SafeMathOps.lean (wrap-around, truncated division and remainder, shifts, & | ^ &^ and complement, bits.Mul64/Div64/Add64/Sub64/Len/LeadingZeros/TrailingZeros; specification theorems C19_wrap_spec / mul64_spec / div64_spec / bitLen_spec / trailingZeros_spec / add64_sub64_spec), validated against the raw Go operators exhaustively for 8-bit types and by samples for wider types",
                      "Go toolchain, compiled Lean driver"],
     "modelled": ["Go operators + - * / << >> & and conversions as Int arithmetic with two's-complement wrap (validated differentially)",
